@@ -1,23 +1,223 @@
 package main
 
 import (
+	"flag"
 	"fmt"
+	"go/types"
+	"os"
+	"path/filepath"
+	"runtime"
+	"sort"
+	"strconv"
+	"strings"
+	"time"
+
 	"golang.org/x/tools/go/packages"
 	"golang.org/x/tools/go/ssa"
 	"golang.org/x/tools/go/ssa/ssautil"
 )
 
+var (
+	flagRepo    = flag.String("repo", "/repo", "repository root")
+	flagVerif   = flag.String("verif", "/verif", "verification root")
+	flagProp    = flag.String("prop", "", "property id to decide (e.g. C02); empty = all contracts")
+	flagTier    = flag.String("tier", "quick", "quick|thorough")
+	flagFn      = flag.String("fn", "", "only functions whose key contains this substring")
+	flagDump    = flag.String("dump", "", "directory to keep the generated SMT scripts in")
+	flagVerbose = flag.Bool("v", false, "verbose")
+	flagNoEvid  = flag.Bool("no-evidence", false, "do not write the evidence file")
+	flagList    = flag.Bool("list", false, "list contracts and exit")
+	flagTimeout = flag.Int("timeout", 0, "per-obligation solver timeout in ms (default: 10000 quick, 60000 thorough)")
+)
+
 func main() {
-	cfg := &packages.Config{Mode: packages.LoadAllSyntax, Dir: "/repo", BuildFlags: []string{"-tags=verif"}}
+	flag.Parse()
+	os.Exit(run())
+}
+
+type Loaded struct {
+	prog  *ssa.Program
+	pkgs  []*packages.Package
+	spkgs []*ssa.Package
+	db    *SpecDB
+}
+
+func load() (*Loaded, error) {
+	cfg := &packages.Config{Mode: packages.LoadAllSyntax, Dir: *flagRepo, BuildFlags: []string{"-tags=verif"},
+		Env: append(os.Environ(), "GOFLAGS=-mod=mod", "GOPROXY=off", "GOSUMDB=off", "GOTOOLCHAIN=local")}
 	pkgs, err := packages.Load(cfg, "./...")
 	if err != nil {
-		panic(err)
+		return nil, err
+	}
+	nerr := 0
+	for _, p := range pkgs {
+		for _, e := range p.Errors {
+			fmt.Fprintf(os.Stderr, "load error: %v\n", e)
+			nerr++
+		}
+	}
+	if nerr > 0 {
+		return nil, fmt.Errorf("%d package load errors", nerr)
 	}
 	prog, spkgs := ssautil.AllPackages(pkgs, ssa.NaiveForm)
 	prog.Build()
-	for _, p := range spkgs {
-		if p != nil {
-			fmt.Println(p.Pkg.Path())
+	l := &Loaded{prog: prog, pkgs: pkgs, spkgs: spkgs, db: NewSpecDB()}
+	// index functions, struct aliases, field heaps
+	for fn := range ssautil.AllFunctions(prog) {
+		funcIndex[fn.String()] = fn
+	}
+	for fn := range ssautil.AllFunctions(prog) {
+		if !inRepo(fn) {
+			continue
+		}
+		for _, b := range fn.Blocks {
+			for _, ins := range b.Instrs {
+				if ct, ok := ins.(*ssa.ChangeType); ok {
+					a, aok := derefPtr(ct.X.Type())
+					b2, bok := derefPtr(ct.Type())
+					if aok && bok {
+						_, as := a.Underlying().(*types.Struct)
+						_, bs := b2.Underlying().(*types.Struct)
+						if as && bs {
+							unionStructs(a, b2)
+						}
+					}
+				}
+			}
 		}
 	}
+	for _, p := range pkgs {
+		if !strings.HasPrefix(p.PkgPath, repoPrefix) {
+			continue
+		}
+		sc := p.Types.Scope()
+		for _, n := range sc.Names() {
+			if tn, ok := sc.Lookup(n).(*types.TypeName); ok {
+				if s, ok := tn.Type().Underlying().(*types.Struct); ok {
+					for i := 0; i < s.NumFields(); i++ {
+						f := s.Field(i)
+						switch f.Type().Underlying().(type) {
+						case *types.Array, *types.Struct:
+						default:
+							allFieldHeaps[fieldHeapName(tn.Type(), f)] = ArraySort(sortOf(f.Type()))
+						}
+					}
+				}
+			}
+		}
+	}
+	// contracts: library first, then in-repo files
+	libs, _ := filepath.Glob(filepath.Join(*flagVerif, "contracts", "lib", "*.spec"))
+	sort.Strings(libs)
+	for _, f := range libs {
+		if err := l.db.LoadSpecFile(f, "", true); err != nil {
+			return nil, err
+		}
+	}
+	for _, p := range pkgs {
+		if !strings.HasPrefix(p.PkgPath, repoPrefix) {
+			continue
+		}
+		for _, gf := range p.GoFiles {
+			if strings.HasSuffix(gf, "zz_contracts_verif.go") {
+				if err := l.db.LoadSpecFile(gf, p.PkgPath, false); err != nil {
+					return nil, err
+				}
+			}
+		}
+	}
+	return l, nil
 }
+
+func run() int {
+	t0 := time.Now()
+	l, err := load()
+	if err != nil {
+		fmt.Fprintf(os.Stderr, "govc: %v\n", err)
+		return 3
+	}
+	loadSecs := time.Since(t0).Seconds()
+	db := l.db
+	var keys []string
+	for k, c := range db.Contracts {
+		if c.Trusted {
+			continue
+		}
+		keys = append(keys, k)
+	}
+	sort.Strings(keys)
+	if *flagList {
+		for _, k := range keys {
+			c := db.Contracts[k]
+			fmt.Printf("%-70s props=%v requires=%d ensures=%d loops=%d\n", k, c.propList(), len(c.Requires), len(c.Ensures), len(c.Loops))
+		}
+		return 0
+	}
+	prop := *flagProp
+	tier := *flagTier
+	if t := os.Getenv("VERIF_TIER"); t != "" && tier == "quick" {
+		tier = t
+	}
+	timeout := *flagTimeout
+	if timeout == 0 {
+		timeout = 10000
+		if tier == "thorough" {
+			timeout = 60000
+		}
+	}
+	workdir, err := os.MkdirTemp("", "govc-")
+	if err != nil {
+		fmt.Fprintln(os.Stderr, err)
+		return 3
+	}
+	if *flagDump != "" {
+		os.MkdirAll(*flagDump, 0755)
+		workdir = *flagDump
+	} else {
+		defer os.RemoveAll(workdir)
+	}
+
+	rep := &Report{Prop: prop, Tier: tier, DB: db, Start: t0, LoadSecs: loadSecs, Unknown: map[string]bool{}, Notes: map[string]bool{}}
+	var allPaths []*PathResult
+	genStart := time.Now()
+	for _, k := range keys {
+		c := db.Contracts[k]
+		if *flagFn != "" && !strings.Contains(k, *flagFn) {
+			continue
+		}
+		if prop != "" && !c.Props[prop] && !(prop == "C14" && !c.NoSafety) {
+			continue
+		}
+		fn := funcIndex[k]
+		if fn == nil {
+			rep.Missing = append(rep.Missing, MissingFn{Key: k, Props: c.propList(), File: c.File})
+			continue
+		}
+		ex := &Exec{prog: l.prog, db: db, fset: l.prog.Fset, maxPaths: 4000, loopCache: map[*ssa.Function]*LoopInfo{}, usedUnknown: map[string]bool{}}
+		if c.PathCap > 0 {
+			ex.maxPaths = c.PathCap
+		}
+		ex.verifyFunc(fn, c)
+		rep.Funcs = append(rep.Funcs, FuncInfo{Key: k, Paths: len(ex.paths), Mode: "int", Lemma: c.Lemma, ExitPaths: ex.exitPaths})
+		for _, e := range ex.errors {
+			rep.EngineErrors = append(rep.EngineErrors, EngineErr{Fn: k, Msg: e, Props: c.propList()})
+		}
+		for u := range ex.usedUnknown {
+			rep.Unknown[u] = true
+		}
+		for _, p := range ex.paths {
+			for _, n := range p.Notes {
+				rep.Notes[k+": "+n] = true
+			}
+		}
+		allPaths = append(allPaths, ex.paths...)
+	}
+	rep.GenSecs = time.Since(genStart).Seconds()
+	scfg := solveCfg{dir: workdir, timeoutMs: timeout, workers: runtime.NumCPU(), cross: tier == "thorough", prelude: db.prelude()}
+	solveStart := time.Now()
+	rep.Results = solveAll(allPaths, scfg)
+	rep.SolveSecs = time.Since(solveStart).Seconds()
+	return rep.finish(workdir)
+}
+
+var _ = strconv.Itoa
